@@ -27,6 +27,9 @@ else:
 d = "".join(difflib.unified_diff(src.splitlines(True), out.splitlines(True), "a/" + rel, "b/" + rel, n=3))
 os.makedirs("/verif/mutants/" + prop, exist_ok=True)
 open("/verif/mutants/%s/%s.diff" % (prop, name), "w").write(d)
-json.dump({"expect": expect, "what": what, "origin": "hand-made single-site mutant"},
+meta = {"expect": expect, "what": what, "origin": "hand-made single-site mutant"}
+if expect == "BENIGN":
+    meta = {"benign": True, "what": what, "origin": "hand-made behaviour-preserving rewrite: the rules must stay silent"}
+json.dump(meta,
           open("/verif/mutants/%s/%s.json" % (prop, name), "w"), indent=1)
 print("wrote mutants/%s/%s.diff (%d lines)" % (prop, name, d.count("\n")))
